@@ -141,7 +141,7 @@ def run(tier, seed, rng):
         allowed[d] = set(x for x in o.split(',') if x)
     lines, meta = [], []
     for k, e in enumerate(especs):
-        sp = ['my::strum_path', 'strum', 'st', 'strum', 'strum', 'strum'][k % 6]
+        sp = ['my::strum_path', 'strum', 'st', '::strum', 'strum', '::strum::nested'][k % 6]
         src = NeutralGen(e, sp).enum_source()
         for d in e.derives:
             if d == 'FromRepr':
@@ -173,13 +173,19 @@ def run(tier, seed, rng):
                 else:
                     canon = 'absOther:' + path
             elif kind == 'rel':
-                canon = 'strumItem:' + path[len(spn) + 2:] if path.startswith(spn + '::') else 'rel:' + path
+                # (a configured path that STARTS with `::` must come out with it: the relative spelling can be shadowed by a local
+                #  module of that name)
+                canon = 'strumItem:' + path[len(spn) + 2:] if path.startswith(spn + '::') and not sp.startswith('::') else 'rel:' + path
             else:
                 canon = tok
             if kind == 'bare':
                 import re
                 if re.search(r'\b%s\b' % re.escape(path), src):
                     continue  # written by the user in the item itself (requested derives, field types, bounds), copied through
+            if kind == 'rel' and canon.startswith('rel:'):
+                import re
+                if re.search(r'(?<![:\w])%s\b' % re.escape(path), src):
+                    continue  # a relative path the user wrote (parse_err_ty = strum::ParseError), copied through
             if canon not in allowed[d]:
                 unacc.setdefault((d, canon), (e, src, o))
     # references outside the model's per-derive table are judged by the model's predicates (noStdOk, cratePathOk,
